@@ -91,6 +91,7 @@ def run(ctx):
     keys = sp["keys"]
     dk = [k for k in fx.fns if k.startswith("<scanindex::ScanIndex as") and k.endswith("Deserialize<'de>>::deserialize")]
     ctx.floor("D1-KEY-FIELD", "scanindex::ScanIndex", "Deserialize impl", len(dk), 1)
+    alt_seen = {}
     if dk:
         DK = dk[0]
         paths = ctx.paths(DK)
@@ -114,6 +115,40 @@ def run(ctx):
                 lits = {const_str(call_args(g)[1]) for g in gets}
                 ok = lits == {key}
                 why = "field %s is read from key(s) %s, expected %s" % (f, sorted(x for x in lits if x), key)
+                # the same optional / list values written with control flow instead of combinators: decided per path on the lookup's outcome
+                if c["kind"] in ("optional-result", "list-result"):
+                    G = [strip_refs(x.term[1]) for x in p.conds() if x.term[0] == "discr" and is_call(strip_refs(x.term[1]), "HashMap::get") and const_str(call_args(strip_refs(x.term[1]))[1]) == key]
+                    t0 = strip_refs(t)
+                    if G and ((c["kind"] == "optional-result" and agg_variant(t0) is not None and agg_variant(t0)[1] in ("Some", "None")) or
+                              (c["kind"] == "list-result" and isinstance(t0, tuple) and (t0[0] in ("havoc", "mutated") or is_call(t0, "Vec::new", "Vec::<T>::new")))):
+                        g = G[-1]
+                        fact = [x.fact for x in p.conds() if x.term[0] == "discr" and strip_refs(x.term[1]) == g][-1]
+                        present = fact == ("eq", 1)
+                        pay = ("field", ("downcast", g, "Some"), 0, "0")
+
+                        def from_payload(x):
+                            return mentions(x, lambda s_: len(s_) > 2 and s_[0] == "field" and s_[2] == 0 and isinstance(s_[1], tuple) and s_[1][:1] == ("downcast",) and s_[1][2] == "Some" and strip_refs(s_[1][1]) == g)
+                        if c["kind"] == "optional-result":
+                            av = agg_variant(strip_refs(t))
+                            if not present:
+                                ok = bool(av) and av[1] == "None"
+                            else:
+                                x = av[2][0] if av and av[1] == "Some" and av[2] else None
+                                v = find_calls(x, c["via"]) if x is not None else []
+                                ok = bool(v) and has_try(x) and from_payload(call_args(v[0])[0]) and not find_calls(x, "Result::ok", "Result::unwrap_or", "Result::unwrap_or_default")
+                            why = "%s is not `None when %s is absent, Some(%s(value)?) when present`" % (f, key, c["via"])
+                        else:
+                            if not present:
+                                ok = is_call(strip_refs(t), "Vec::new", "Vec::<T>::new")
+                            else:
+                                acc = accumulation(ctx, DK, t, paths)
+                                v = find_calls(acc["item"], c["via"]) if acc else []
+                                ok = acc is not None and is_call(strip_refs(acc["src"]), "str>::split_whitespace") and from_payload(call_args(strip_refs(acc["src"]))[0]) and bool(v) \
+                                    and has_try(acc["item"]) and not find_calls(acc["item"], "Result::ok", "Result::unwrap_or", "Result::unwrap_or_default")
+                            why = "%s is not `empty when %s is absent, else %s(item)? for every whitespace-separated item, in order`" % (f, key, c["via"])
+                        ctx.check(ok, "D1-KEY-FIELD", DK, "field=%s" % f, "%s <- %s (%s, written with control flow)" % (f, key, c["kind"]), why, fn_span(body))
+                        alt_seen.setdefault(f, set()).add(present)
+                        continue
                 if ok:
                     kind = c["kind"]
                     if kind == "optional":
@@ -168,6 +203,9 @@ def run(ctx):
             missing = set(byfield) - set(flds)
             ctx.check(not missing, "D1-KEY-FIELD", DK, "all-keys-used", "all 15 keys fill a field", "no field is filled from key(s) of %s" % sorted(missing), fn_span(body))
             ctx.floor("D1-KEY-FIELD", DK, "fields", len(flds), 16)
+        for f, seen in sorted(alt_seen.items()):
+            ctx.check(seen == {True, False}, "D1-KEY-FIELD", DK, "field=%s:both-outcomes" % f, "both the present and the absent case of the key reach Ok",
+                      "field %s: only the %s case of its key reaches an Ok result" % (f, "present" if True in seen else "absent"), fn_span(body), nontrivial=False)
         errprop(ctx, DK, paths, body, rule="D3-ERRPROP", no_effects_after_error=(), floor=3)
         ms = [e for p in paths for e in p.calls("deserialize_str")]
         ctx.check(bool(ms), "D1-KEY-FIELD", DK, "map-source", "the map comes from deserialize_str(KeyValue)", "the key/value map is not produced by deserialize_str(KeyValue)", fn_span(body), nontrivial=False)
